@@ -89,9 +89,11 @@ func (c *RuntimeContext) Init(p uintptr, codelen int) {
 	c.KeepRefs = c.KeepRefs[:0]
 	c.SeenPtr = c.SeenPtr[:0]
 	c.BaseIndent = 0
+	verifInit(c)
 }
 
 func (c *RuntimeContext) Ptr() uintptr {
+	verifPtrs(c)
 	header := (*runtime.SliceHeader)(unsafe.Pointer(&c.Ptrs))
 	return uintptr(header.Data)
 }
